@@ -1,3 +1,4 @@
 pub mod bigint;
 pub mod pyslice;
 pub mod json;
+pub mod ws;
